@@ -144,6 +144,11 @@ def _ops():
     add("P0.with_fragment('z')/with_path('/n')", lambda p: (out_url(p["P0"].with_fragment("z")), out_url(p["P0"].with_path("/n"))))
     add("P2.with_name('n')/with_suffix('.md')", lambda p: (out_url(p["P2"].with_name("n")), out_url(p["P2"].with_suffix(".md"))))
     add("P0.with_scheme('https')", lambda p: out_url(p["P0"].with_scheme("https")))
+    add("P0 keep_query variants", lambda p: (out_url(p["P0"].with_name("n", keep_query=True, keep_fragment=True)),
+                                               out_url(p["P0"].with_path("/k", keep_query=True)), out_url(p["P2"].with_suffix(".x", keep_query=True))))
+    add("human_repr(non-printable)", lambda p: impl.URL.build(scheme="http", host="a.com", path="/a\x7f", fragment="\u200e").human_repr())
+    add("human_repr(non-printable + delimiters)", lambda p: impl.URL.build(scheme="http", host="a.com", user="u\x7f:%", path="/b\x7f?x%", query={"k\x7f&": "v\u200e=%"},
+                                                                             fragment="f\u200e%").human_repr())
     add("cache_clear()", lambda p: impl.yarl.cache_clear())
     for label, kw in CONFIGS:
         add("cache_configure(%s)" % label, lambda p, kw=kw: impl.yarl.cache_configure(**kw))
